@@ -665,28 +665,38 @@ extern "C" void sim_handler_log(const char *msg, void *, int error) { note_handl
 extern "C" void __wrap_ignore_handler_s(const char *msg, void *, int error) { note_handler(0, 0, msg, error); }
 
 // ------------------------------------------------------------------ arenas
+// All task arenas lie back to back in one mapping (guard pages only at the two ends): "disjoint caller data" may be
+// adjacent in memory, down to sharing a machine word. Consecutive arenas overlap by one aligned 8-byte word: its
+// first half is the last 4 bytes a task may use (offsets up to ARENA_SIZE-4), its second half the first 4 bytes of
+// the next task (offsets from 4). A task owns, fills and hashes [4, ARENA_SIZE-4) of its arena. Generators place some
+// destination buffers flush against those edges, so a call that touches bytes just outside the range it was given
+// - even by re-writing them with their old value - reaches the neighbouring task's data.
+enum { MAX_ARENAS = 8, ARENA_STRIDE = ARENA_SIZE - 8 };
+static uint8_t *g_arena_block = nullptr;
 static void arena_alloc(Task &t) {
-    if (t.arena.map) return;
-    size_t total = ARENA_SIZE + 3 * 4096;
-    // fixed addresses: pointers the library stores into caller memory (search results, tokens)
-    // are then the same in every process, so digests never depend on ASLR
-    void *want = (void *)(0x200000000000ULL + (uint64_t)t.id * 0x1000000ULL);
-    uint8_t *m = (uint8_t *)mmap(want, total, PROT_READ | PROT_WRITE, MAP_PRIVATE | MAP_ANONYMOUS | MAP_FIXED_NOREPLACE, -1, 0);
-    if (m == MAP_FAILED || m != want) { perror("mmap arena"); _exit(2); }
-    mprotect(m, 4096, PROT_NONE);
-    mprotect(m + total - 4096, 4096, PROT_NONE);
-    t.arena.map = m;
+    if (!g_arena_block) {
+        size_t total = (((size_t)MAX_ARENAS * ARENA_STRIDE + 8 + 4095) & ~(size_t)4095) + 2 * 4096;
+        // fixed address: pointers the library stores into caller memory (search results, tokens)
+        // are then the same in every process, so digests never depend on ASLR
+        void *want = (void *)0x200000000000ULL;
+        uint8_t *m = (uint8_t *)mmap(want, total, PROT_READ | PROT_WRITE, MAP_PRIVATE | MAP_ANONYMOUS | MAP_FIXED_NOREPLACE, -1, 0);
+        if (m == MAP_FAILED || m != want) { perror("mmap arenas"); _exit(2); }
+        mprotect(m, 4096, PROT_NONE);
+        mprotect(m + total - 4096, 4096, PROT_NONE);
+        g_arena_block = m;
+    }
+    if (t.id < 0 || t.id >= MAX_ARENAS) { fprintf(stderr, "sim: too many tasks\n"); _exit(2); }
+    t.arena.map = g_arena_block;
+    t.arena.base = g_arena_block + 4096 + (size_t)t.id * ARENA_STRIDE;
     t.arena.size = ARENA_SIZE;
 }
 void arena_fill(Task &t) {
     arena_alloc(t);
     uint64_t seed = t.plan->arena_seed;
-    t.arena.base = t.arena.map + 4096 + (seed & 0x38);
-    // clear the whole writable window so that bytes outside the arena proper are deterministic too
-    memset(t.arena.map + 4096, 0, ARENA_SIZE + 4096);
+    memset(t.arena.base + ARENA_LO, 0, ARENA_HI - ARENA_LO);
     Rng r(seed);
     uint8_t *b = t.arena.base;
-    for (size_t i = 0; i + 8 <= ARENA_SIZE - ARENA_TAIL; i += 8) {
+    for (size_t i = 8; i + 8 <= ARENA_SIZE - ARENA_TAIL; i += 8) {
         uint64_t v = r.next();
         for (int k = 0; k < 8; k++) {
             uint8_t x = (uint8_t)(v >> (8 * k));
@@ -695,7 +705,7 @@ void arena_fill(Task &t) {
     }
     for (const Op &op : t.plan->ops)
         for (const Blob &bl : op.blobs)
-            if (bl.off + bl.bytes.size() <= ARENA_SIZE - ARENA_TAIL) memcpy(b + bl.off, bl.bytes.data(), bl.bytes.size());
+            if (bl.off >= ARENA_LO && bl.off + bl.bytes.size() <= ARENA_HI) memcpy(b + bl.off, bl.bytes.data(), bl.bytes.size());
 }
 
 // ------------------------------------------------------------------ scheduler
@@ -794,7 +804,7 @@ static void settings_reset() {
 }
 
 static void finish_digest(Task &t, OpResult &r) {
-    r.arena_hash = hash_bytes(t.arena.base, ARENA_SIZE, 0);
+    r.arena_hash = hash_bytes(t.arena.base + ARENA_LO, ARENA_HI - ARENA_LO, 0);
     Hasher h;
     h.u64((uint64_t)r.ret);
     h.u64((uint64_t)(int64_t)r.err);
@@ -965,6 +975,15 @@ void run_pass(const Plan &plan, const PassCfg &cfg, Strategy &strat, PassResult 
     }
     for (Task *t : g_sim.tasks)
         if (t->th_valid) { pthread_join(t->th, nullptr); t->th_valid = false; }
+    // what a task's memory looks like when everybody is done is part of its last call's observable outcome:
+    // a write that lands in it after that call returned (another thread's call storing outside its own range)
+    // would otherwise go unnoticed
+    for (Task *t : g_sim.tasks) {
+        int last = -1;
+        for (size_t i = 0; i < t->res.size(); i++)
+            if (t->res[i].done) last = (int)i;
+        if (last >= 0) finish_digest(*t, t->res[last]);
+    }
     out.res.clear();
     for (Task *t : g_sim.tasks) out.res.push_back(t->res);
     out.recorded = g_sim.recorded;
